@@ -280,6 +280,18 @@ type w1State struct {
 	depth  int
 	objs   []*simdjson.Object
 	arrs   []*simdjson.Array
+	elems  []*simdjson.Iter
+}
+
+// elemDst: the destination Iter handed to NextElementBytes, recycled per nesting depth like the Object/Array destinations.
+func (st *w1State) elemDst() *simdjson.Iter {
+	if st.depth >= 256 {
+		return &simdjson.Iter{}
+	}
+	for len(st.elems) <= st.depth {
+		st.elems = append(st.elems, &simdjson.Iter{})
+	}
+	return st.elems[st.depth]
 }
 
 func (st *w1State) objDst() *simdjson.Object {
@@ -389,13 +401,13 @@ func (st *w1State) value(out []byte, it *simdjson.Iter, typ simdjson.Type) ([]by
 		if err != nil {
 			return out, fmt.Errorf("W1: Object(): %v", err)
 		}
+		elem := st.elemDst()
 		st.depth++
 		defer func() { st.depth-- }()
 		out = append(out, '{')
-		var elem simdjson.Iter
 		first := true
 		for {
-			name, t, err := obj.NextElementBytes(&elem)
+			name, t, err := obj.NextElementBytes(elem)
 			if err != nil {
 				return out, fmt.Errorf("W1: NextElementBytes: %v", err)
 			}
@@ -408,7 +420,7 @@ func (st *w1State) value(out []byte, it *simdjson.Iter, typ simdjson.Type) ([]by
 			first = false
 			out = canonStr(out, name)
 			out = append(out, '=')
-			out, err = st.value(out, &elem, t)
+			out, err = st.value(out, elem, t)
 			if err != nil {
 				return out, err
 			}
